@@ -267,6 +267,10 @@ func c08(c *Ctx) {
 	c.GuardedPaths("candidate/loop-retries", ml, p.PlainCalls(mp), [][]*Guard{{GP("("+al+"(p0, p1)#2 == nil)", true), G(`\("" == (phi\(.*\)|litefs\.\(\*Store\)\.monitorLeaseAsReplica\(.*\)#0)\)`, false)}}, 1, "the election loop becomes primary only when acquireLeaseOrPrimaryInfo returned no error (or a handed-off lease id is pending)", "")
 
 	// ---- cluster ----
+	c.ErrHandled("cluster/local-id/read-error", "litefs.(*Store).readClusterID", p.PlainCalls("litefs.OS.ReadFile", "litefs.ValidateClusterID"), p.Writes("litefs.Store.clusterID"), 2,
+		"the stored cluster id counts as absent only when the file does not exist: any other read error, and an invalid id, is an error", "a node whose clusterid file cannot be read would start with no id, pass every 'different cluster' test, adopt a foreign cluster's id and overwrite its own file")
+	c.ErrHandled("cluster/local-id/open-refuses", "litefs.(*Store).Open", p.PlainCalls("litefs.(*Store).readClusterID"), p.PlainCalls("litefs.(*Store).openDatabases"), 1,
+		"Store.Open does not go on when the stored cluster id could not be read", "")
 	lc := "litefs.Leaser.ClusterID(p0.Leaser, p1)#0"
 	sc := "litefs.(*Store).ClusterID(p0)"
 	eqC := G(`\(`+pat(lc)+` == `+pat(sc)+`\)|\(`+pat(sc)+` == `+pat(lc)+`\)`, true)
